@@ -755,3 +755,153 @@ Proof.
   assert (forall l0, In l0 tr -> is_env l0 = false) as A' by (intros l0 I; apply A; right; exact I).
   specialize (IHsteps A'). lia.
 Qed.
+
+(* ------------------------------------------------ a quiet state is always reachable *)
+(* The proxy steps that can be enabled in a state, one representative per kind (a Read of any
+   admissible size is enabled iff the Read of the largest one is). *)
+Definition bufn (sh : shape) : nat := N.to_nat (sh_bufsz sh).
+Definition candidates (sh : shape) (s : state) : list label :=
+  [LReply; LDrain (d_pre (s_ct s));
+   LD CT (Deliver (d_buf (s_ct s))); LD TC (Deliver (d_buf (s_tc s)));
+   LD CT (Read (firstn (bufn sh) (d_src (s_ct s)))); LD TC (Read (firstn (bufn sh) (d_src (s_tc s))));
+   LD CT ReadEOF; LD TC ReadEOF; LD CT CloseWrite; LD TC CloseWrite; LD CT Abort; LD TC Abort;
+   LClose Up; LClose Down].
+
+Fixpoint first_enabled (sh : shape) (s : state) (ls : list label) : option (label * state) :=
+  match ls with
+  | [] => None
+  | l :: r => match stepb sh s l with Some s' => Some (l, s') | None => first_enabled sh s r end
+  end.
+Definition pick (sh : shape) (s : state) : option (label * state) := first_enabled sh s (candidates sh s).
+
+Lemma candidates_proxy sh s l : In l (candidates sh s) -> is_env l = false.
+Proof. unfold candidates. simpl. intros H. repeat (destruct H as [<-|H]; [reflexivity|]). contradiction. Qed.
+
+Lemma first_enabled_some sh s ls l s' : first_enabled sh s ls = Some (l, s') -> In l ls /\ step sh s l s'.
+Proof.
+  induction ls as [|x r IH]; simpl; [discriminate|].
+  destruct (stepb sh s x) eqn:E.
+  - intro H; inversion H; subst. split; [left; reflexivity | apply stepb_iff; exact E].
+  - intro H. destruct (IH H) as [I S]. split; [right; exact I | exact S].
+Qed.
+Lemma first_enabled_none sh s ls : first_enabled sh s ls = None -> forall l, In l ls -> stepb sh s l = None.
+Proof.
+  induction ls as [|x r IH]; simpl; [intros _ l []|].
+  destruct (stepb sh s x) eqn:E; [discriminate|]. intros H l [<-|I]; [exact E | apply IH; assumption].
+Qed.
+
+(* if any proxy step is enabled, so is one of the candidates *)
+Lemma enabled_candidate sh s l s' : 0 < sh_bufsz sh -> step sh s l s' -> is_env l = false ->
+  exists c sc, In c (candidates sh s) /\ step sh s c sc.
+Proof.
+  intros Hb H E. inversion H; subst; simpl in E; try discriminate.
+  - exists LReply, (reply s). split; [simpl; auto | exact H].
+  - exists (LDrain (d_pre (s_ct s))), (drain sh s). split; [simpl; auto | exact H].
+  - exists (LClose sd), (close_side s sd). split; [destruct sd; simpl; auto 20 | exact H].
+  - destruct a; try discriminate.
+    + (* Read bs: the largest read is enabled too *)
+      inversion H0; subst.
+      set (src := d_src (get d s)) in *.
+      assert (Hn : (0 < bufn sh)%nat) by (unfold bufn; lia).
+      pose (bs' := firstn (bufn sh) src).
+      assert (St : dstep sh (can_copy sh s) (may_break sh s d) (get d s) (Read bs') (upd_read (get d s) bs' (skipn (bufn sh) src))).
+      { constructor; auto.
+        - unfold bs'. rewrite H8. destruct bs; [congruence|]. destruct (bufn sh); [lia|]. simpl. discriminate.
+        - unfold bs', len, bufn. rewrite firstn_length. lia.
+        - unfold bs'. symmetry. apply firstn_skipn. }
+      exists (LD d (Read bs')), (note_done (Read bs') (set d s (upd_read (get d s) bs' (skipn (bufn sh) src)))). split; [|exact (S_dir _ _ _ _ _ St)].
+      unfold bs', src. destruct d; simpl; auto 20.
+    + exists (LD d ReadEOF), (note_done ReadEOF (set d s x')). split; [destruct d; simpl; auto 20 | exact H].
+    + inversion H0; subst. exists (LD d (Deliver (d_buf (get d s)))), (note_done (Deliver (d_buf (get d s))) (set d s (upd_deliver (get d s)))).
+      split; [destruct d; simpl; auto 20 | exact H].
+    + exists (LD d CloseWrite), (note_done CloseWrite (set d s x')). split; [destruct d; simpl; auto 20 | exact H].
+    + exists (LD d Abort), (note_done Abort (set d s x')). split; [destruct d; simpl; auto 20 | exact H].
+Qed.
+
+Lemma pick_none_quiet sh s : 0 < sh_bufsz sh -> pick sh s = None -> quiet sh s.
+Proof.
+  intros Hb P l s' St. destruct (is_env l) eqn:E; [reflexivity|]. exfalso.
+  destruct (enabled_candidate _ _ _ _ Hb St E) as (c & sc & I & Sc).
+  apply stepb_iff in Sc. rewrite (first_enabled_none _ _ _ P c I) in Sc. discriminate.
+Qed.
+
+(* run proxy steps until none is enabled *)
+Fixpoint settle (sh : shape) (fuel : nat) (s : state) : list label * state :=
+  match fuel with
+  | O => ([], s)
+  | S f => match pick sh s with
+           | Some (l, s1) => let '(tr, s2) := settle sh f s1 in (l :: tr, s2)
+           | None => ([], s)
+           end
+  end.
+
+Lemma settle_spec sh : forall fuel s tr s', settle sh fuel s = (tr, s') ->
+  steps sh s tr s' /\ (forall l, In l tr -> is_env l = false) /\ ((mu s < fuel)%nat -> pick sh s' = None).
+Proof.
+  induction fuel as [|f IH]; intros s tr s'; simpl.
+  - intro E; inversion E; subst. split; [constructor|]. split; [intros l []|lia].
+  - destruct (pick sh s) as [[l s1]|] eqn:P.
+    + destruct (settle sh f s1) as [tr1 s2] eqn:St. intro E; inversion E; subst.
+      destruct (first_enabled_some _ _ _ _ _ P) as [I S1].
+      destruct (IH _ _ _ St) as (S2 & A2 & Q2).
+      pose proof (candidates_proxy _ _ _ I) as El.
+      pose proof (proxy_step_decreases _ _ _ _ S1 El) as D.
+      split; [econstructor; eassumption|]. split.
+      * intros l0 [<-|I0]; [exact El | apply A2; exact I0].
+      * intro L. apply Q2. lia.
+    + intro E; inversion E; subst. split; [constructor|]. split; [intros l []|]. intros _. exact P.
+Qed.
+
+(* From every state the proxy can, by steps of its own alone, reach a state in which it has nothing
+   left to do — in at most mu s steps (no deadlock on the way to completion). *)
+Theorem can_settle sh s : 0 < sh_bufsz sh ->
+  exists tr s', steps sh s tr s' /\ (forall l, In l tr -> is_env l = false) /\ quiet sh s' /\ (length tr <= mu s)%nat.
+Proof.
+  intro Hb. destruct (settle sh (S (mu s)) s) as [tr s'] eqn:E.
+  destruct (settle_spec _ _ _ _ _ E) as (S1 & A & Q).
+  exists tr, s'. split; [exact S1|]. split; [exact A|]. split.
+  - apply pick_none_quiet; [exact Hb | apply Q; lia].
+  - pose proof (proxy_quiesces _ _ _ _ S1 A). lia.
+Qed.
+
+Lemma proxy_step_keeps_wcl sh s l s' d : step sh s l s' -> is_env l = false -> d_wcl (get d s') = d_wcl (get d s).
+Proof.
+  intros H E; inversion H; subst; simpl in E; try discriminate.
+  - destruct d; reflexivity.
+  - destruct d; reflexivity.
+  - destruct d, sd; reflexivity.
+  - rewrite get_note_done. destruct (dir_eq_dec d d0) as [->|NE].
+    + rewrite get_set_same. inversion H0; subst; simpl in *; try discriminate; reflexivity.
+    + rewrite get_set_other by assumption. reflexivity.
+Qed.
+
+Lemma proxy_steps_keep_wcl sh s tr s' d :
+  steps sh s tr s' -> (forall l, In l tr -> is_env l = false) -> d_wcl (get d s') = d_wcl (get d s).
+Proof.
+  induction 1; intro A; [reflexivity|].
+  rewrite IHsteps by (intros l0 I; apply A; right; exact I).
+  apply (proxy_step_keeps_wcl _ _ _ _ _ H). apply A. left. reflexivity.
+Qed.
+
+(* Once both endpoints have shut down, the proxy — by steps of its own alone, at most mu s of them —
+   reaches a state in which both sockets are closed and (unless the forced close fired) each direction
+   has been delivered completely and shown end-of-stream: completion is always reachable. *)
+Theorem completion_reachable sh e k tr s :
+  shape_ok sh -> steps sh (init e [] k None None) tr s ->
+  d_wcl (s_ct s) = true -> d_wcl (s_tc s) = true ->
+  exists tr' s', steps sh s tr' s' /\ (forall l, In l tr' -> is_env l = false) /\ (length tr' <= mu s)%nat /\
+    s_up s' = true /\ s_down s' = true /\
+    (s_forced s' = false ->
+       forall d, d_rcv (get d s') = early_of e k d ++ writes d (tr ++ tr') /\ d_eof (get d s') = true).
+Proof.
+  intros Hsh R W1 W2.
+  pose proof Hsh as (_ & _ & _ & _ & Hb & _).
+  destruct (can_settle sh s Hb) as (tr' & s' & S1 & A & Q & L).
+  exists tr', s'. split; [exact S1|]. split; [exact A|]. split; [exact L|].
+  pose proof (steps_app _ _ _ _ _ _ R S1) as R'.
+  assert (W1' : d_wcl (s_ct s') = true) by (rewrite <- W1; exact (proxy_steps_keep_wcl _ _ _ _ CT S1 A)).
+  assert (W2' : d_wcl (s_tc s') = true) by (rewrite <- W2; exact (proxy_steps_keep_wcl _ _ _ _ TC S1 A)).
+  destruct (both_closed sh Hsh e k _ _ R' Q W1' W2') as [U D].
+  split; [exact U|]. split; [exact D|].
+  intros F d. apply (complete sh Hsh e k _ _ R' d Q F). destruct d; assumption.
+Qed.
